@@ -4,7 +4,7 @@ under /verif/seeded/<name>/ (patch.diff, demonstration, meta.json) and record wh
 import json, os, shutil, subprocess, sys
 mid = sys.argv[1]
 name = sys.argv[2] if len(sys.argv) > 2 else mid
-wt = '/tmp/mut/%s' % mid
+wt = '%s/%s' % (os.environ.get('MUTROOT', '/tmp/mut'), mid)
 log = open(os.path.join(wt, 'CONFIRM.log')).read()
 assert 'DEMO-CONFIRMED' in log or 'CONFIRMED=yes' in log, 'not confirmed: ' + log[-300:]
 suite_ok = 'suite_rc=0' in log
